@@ -1,6 +1,7 @@
 import CedarVerif.Lemmas.TypecheckSound
 import CedarVerif.Lemmas.TypecheckSound2
 import CedarVerif.Lemmas.TypecheckPolicy
+import CedarVerif.Lemmas.TypecheckSIP
 import CedarVerif.Thm.C11
 /-
 C03 — strict validation is sound (and not vacuous).
@@ -35,8 +36,11 @@ NOT proved: PERMISSIVE mode for the constructs that are only in (1) — there th
 is unbound at run time, see `SlotsBound` in the full statement); record literals with duplicate keys (not representable in
 Rust).  These are covered by the differential run against Rust and by the implementation-level soundness search of
 harness/src/c03.rs only.
-`strict_implies_permissive` is NOT proved: both modes are modelled and compared with Rust,
-and the implication is checked on the implementation for every generated policy.
+`strict_implies_permissive` (full statement: a `def … : Prop`) is PROVED as `strict_implies_permissive_partial` — with the
+same type and capabilities in both modes — for the expressions of `InFragment2` whose least upper bounds have a flat side
+(`SIPFragment`: an `if` typechecked in both branches has a syntactically flat branch, set-literal elements are
+syntactically flat); NOT proved for `if` / set literals that join record, set or entity types.  Both modes are modelled and
+compared with Rust, and the implication is checked on the implementation for every generated policy.
 
 The invariant has the two clauses the Rust rules need (DESIGN.md App. E): a capability *holds* if its guard
 (`e has a`, `e.hasTag(k)`) is true OR fails with a permitted error; and the output capabilities of an expression typed
@@ -341,6 +345,40 @@ theorem impossible_policy_never_satisfied_static (s : Schema) (cond : Expr) (vs 
   subst hff
   exact typed_false_never_satisfied2 s env w hWF henv hreq hst hact hsl cond (hf env) hv
 
+/-! ### strict acceptance implies permissive acceptance -/
+
+/-- FULL STATEMENT: whatever the strict typechecker accepts, the permissive one accepts, with a supertype -/
+def strict_implies_permissive : Prop :=
+  ∀ (s : Schema) (env : RequestEnv) (e : Expr) (caps : Capabilities) (τ : CedarType) (c : Capabilities),
+    typeOf .strict s env e caps = .ok (τ, c) →
+    ∃ τ' c', typeOf .permissive s env e caps = .ok (τ', c') ∧ isSubtype .permissive τ τ' = true
+
+/-- `strict_implies_permissive` — with the SAME type and capabilities — for the expressions of `InFragment2` that are in
+`SIPFragment` (Lemmas/TypecheckSIP.lean): every construct, but an `if` that is typechecked in both branches has a
+syntactically flat branch (boolean / long / string kind) and the elements of a set literal are syntactically flat, so
+that every least upper bound has a flat side, where the two modes agree (`lub_flat_modes`).  NOT proved: `if` / set
+literals joining record, set or entity types (the strict and permissive `lub` of such types would have to be related). -/
+theorem strict_implies_permissive_partial (s : Schema) (env : RequestEnv) (q : Request)
+    (hWF : SchemaWF2 s) (henv : EnvMatches s env q) (e : Expr) (hf : InFragment2 env e = true) (hs : SIPFragment e = true)
+    (caps : Capabilities) (τ : CedarType) (c : Capabilities) (h : typeOf .strict s env e caps = .ok (τ, c)) :
+    typeOf .permissive s env e caps = .ok (τ, c) :=
+  sip hWF henv e hf hs caps _ h
+
+/-- Corollary: a verdict other than `fail` of the strict typechecker in an environment is the permissive verdict too -/
+theorem strict_accepted_implies_permissive_accepted (s : Schema) (env : RequestEnv) (q : Request)
+    (hWF : SchemaWF2 s) (henv : EnvMatches s env q) (e : Expr) (hf : InFragment2 env e = true) (hs : SIPFragment e = true)
+    (v : Verdict) (hv : checkEnv .strict s env e = some v) (hne : v ≠ .fail) : checkEnv .permissive s env e = some v := by
+  unfold checkEnv at hv ⊢
+  cases hE : expectOneOf (typeOf .strict s env e []) [boolT] with
+  | error err =>
+    rw [hE] at hv
+    cases err <;> simp at hv
+    exact (hne hv.symm).elim
+  | ok p =>
+    rw [hE] at hv
+    rw [(sip hWF henv e hf hs []).expect _ _ hE]
+    exact hv
+
 /-! ### non-vacuity of the second fragment: ALL hypotheses of `typeOf_sound_partial2` instantiated
 
 `entity Group; entity User in [Group] { age?: Long, name: String } tags String;
@@ -483,6 +521,15 @@ example : (∃ b, ex2World.eval ex2Static = .ok (.prim (.bool b))) ∨ (∃ err,
   strict_validation_sound_static ex2Schema ex2Static
     [(⟨"User", ⟨"Action", "view"⟩, "Group", ex2View.context, none, none⟩, .bool)] ex2World ex2_schemaWF ex2_request ex2_store ex2_actions
     (fun _ => rfl) rfl rfl
+/-- strict ⇒ permissive on a condition with an `if` (flat else-branch) and a set literal of flat elements -/
+def ex2Sip : Expr :=
+  .and ex2Static
+  (.and (.binaryApp .contains (.set [.lit (.int 1), .lit (.int 2)]) (.getAttr context "level"))
+        (.binaryApp .lessEq (.ite (.hasAttr principal "age") (.getAttr principal "age") (.lit (.int 0))) (.lit (.int 3))))
+example : SIPFragment ex2Sip = true := by decide +kernel
+example : checkEnv .permissive ex2Schema ex2Env ex2Sip = some .bool :=
+  strict_accepted_implies_permissive_accepted ex2Schema ex2Env ex2World.q ex2_schemaWF ex2_envMatches ex2Sip (by decide +kernel)
+    (by decide +kernel) .bool (by decide +kernel) (by decide)
 /-- `False` from the hierarchy: a `Group` is never in a `User`; `True` from the action hierarchy: `view` is in `read` -/
 example : checkEnv .strict ex2Schema ex2Env (.binaryApp .mem (.var .resource) principal) = some .ff := by decide +kernel
 example : checkEnv .strict ex2Schema ex2Env (.binaryApp .mem (.var .action) (.lit (.entityUID ⟨"Action", "read"⟩))) = some .tt := by
